@@ -502,17 +502,32 @@ func ruleExpiry(c *Ctx) {
 
 // ---------- atomic ids (shared by C06/C07) ----------
 
-func ruleAtomicIDs(c *Ctx) {
+func ruleAtomicIDs(c *Ctx) { atomicIDs(c) }
+
+// atomicIDs: the broker id counters are touched only by sync/atomic adds, and
+// every value a NextId-style function returns is the result of its own add
+// (not a later re-read of the counter, which another caller may have advanced).
+func atomicIDs(c *Ctx) {
 	p := c.P
+	if c.doneAtomicIDs {
+		return
+	}
+	c.doneAtomicIDs = true
 	nIds := 0
+	isCounter := func(v *types.Var) bool {
+		return v.IsField() && strings.HasSuffix(p.FieldName(v), ".nextId")
+	}
 	for _, f := range p.Funcs {
-		acc := p.fieldAccesses(f, func(v *types.Var) bool { return v.IsField() && v.Name() == "nextId" })
+		info := f.Pkg.TypesInfo
+		acc := p.fieldAccesses(f, isCounter)
+		var adds []*ast.CallExpr
 		for _, a := range acc {
 			nIds++
 			ok := false
 			if u, isU := p.Parent(a.sel).(*ast.UnaryExpr); isU && u.Op == token.AND {
 				if call, isC := p.Parent(u).(*ast.CallExpr); isC && strings.HasPrefix(p.CalleeName(f, call), "sync/atomic.Add") {
 					ok = true
+					adds = append(adds, call)
 				}
 			}
 			fn := p.FieldName(a.fv)
@@ -521,6 +536,39 @@ func ruleAtomicIDs(c *Ctx) {
 			} else {
 				c.R.Violate("R-GUARD/atomic", p.Pos(a.sel), f.Name, fn+" via sync/atomic", "the id counter is accessed other than by an atomic add: concurrent NextId calls can return the same id", nil)
 			}
+		}
+		if len(acc) == 0 || f.Decl == nil {
+			continue
+		}
+		// functions that hand out ids (one uint32 result): each returned value is an add result
+		sig, _ := f.Obj.Type().(*types.Signature)
+		if sig == nil || sig.Results().Len() != 1 || !isUint32(sig.Results().At(0).Type()) {
+			continue
+		}
+		okRet, nRet := true, 0
+		walkNoLit(f.Body, func(x ast.Node) bool {
+			rs, isR := x.(*ast.ReturnStmt)
+			if !isR || len(rs.Results) != 1 {
+				return true
+			}
+			nRet++
+			e := ast.Unparen(p.Deref(f, rs.Results[0]))
+			isAdd := false
+			for _, a := range adds {
+				if ast.Expr(a) == e {
+					isAdd = true
+				}
+			}
+			if !isAdd {
+				okRet = false
+			}
+			return true
+		})
+		_ = info
+		if okRet && nRet > 0 && len(adds) == 1 {
+			c.R.Hold("R-GUARD/atomic", p.Pos(f.Node()), f.Name, "returns its own increment", "every return yields the result of the single atomic add", true)
+		} else {
+			c.R.Violate("R-GUARD/atomic", p.Pos(f.Node()), f.Name, "returns its own increment", "the id handed out is not (only) the result of this call's single atomic add: two concurrent callers can obtain the same id", nil)
 		}
 	}
 	if nIds < 2 {
